@@ -7,7 +7,8 @@ LIST_TAGS = ("types", "bounds", "convs", "flags")
 
 
 def _own(derive, a):
-    return a["name"] == ATTR_OF[derive]
+    # TryFrom also reads (and merges) the `#[repr(..)]` attributes of the enum
+    return a["name"] == ATTR_OF[derive] or (derive == "TryFrom" and a["name"] == "repr")
 
 
 def _each(derive, it):
